@@ -11,3 +11,7 @@ package verifhook
 // At marks a named schedule point. It does nothing unless built with the
 // `verif` tag.
 func At(point, key string) {}
+
+// AtChan marks a schedule point right before a receive from ch. It does
+// nothing unless built with the `verif` tag.
+func AtChan(point, key string, ch <-chan struct{}) {}
